@@ -25,6 +25,9 @@ F = ['a', 'aa', '\\a', '\\61 ', '\\aa', '"', "'", ',', ' ', '\n', '/*', '*/', '*
      '[a=', '[a="', "[a='", ':lang(', ':-soup-contains(', ':nth-child(', ':is(', ':not(', '#', '.a', ':a', '::a', '@a']
 FV = ['a', 'b', ' ', '-', 'ab', 'a ', ' a', '\n', '\t', 'g', 'g ', ' g', 'G', '-g']
 SEL_VALUES = ['g', 'a', 'a b', 'ab', '-', ' ']
+# selector values that are regular-expression syntax: whatever the spelling (quoted, or an identifier with every character escaped) they must
+# reach the pattern as literals, otherwise a document value of repeated 'g' backtracks exponentially
+META_VALUES = ['(g+)+!', '(g|g)+!', '(g*)*!']
 OPS = ['=', '~=', '|=', '^=', '$=', '*=', '!=']
 SHORT_N = (30, 24, 18, 12, 6)
 LADDER = (8, 16, 32, 64, 128, 256)
@@ -73,28 +76,29 @@ def inventory(sv):
 
 def attr_patterns(sv):
     """name -> compiled value pattern taken from the IR of '[t OP "VAL" FLAG]'."""
+    from ..ref import ident
     out = {}
-    for op in OPS:
-        for val in SEL_VALUES:
-            for flag in ('', ' i'):
-                text = '[t%s"%s"%s]' % (op, val, flag)
-                try:
-                    c = sv.compile(text)
-                except Exception:
-                    continue
-                stack = [c.selectors]
-                seen = 0
-                while stack and seen < 50:
-                    x = stack.pop()
-                    seen += 1
-                    if isinstance(x, re.Pattern):
-                        out[f'attr{op}{val!r}{flag.strip()}'] = x
-                        break
-                    for a in getattr(x, '__slots__', ()):
-                        if a != '_hash':
-                            stack.append(getattr(x, a))
-                    if isinstance(x, tuple):
-                        stack.extend(x)
+    texts = [('[t%s"%s"%s]' % (op, val, flag), f'attr{op}{val!r}{flag.strip()}') for op in OPS for val in SEL_VALUES for flag in ('', ' i')]
+    texts += [('[t%s"%s"]' % (op, val), f'attr{op}{val!r}') for op in OPS for val in META_VALUES]
+    texts += [('[t%s%s]' % (op, ident.serialize_ident(val)), f'attr{op}{val!r}-as-identifier') for op in OPS for val in META_VALUES]
+    for text, name in texts:
+        try:
+            c = sv.compile(text)
+        except Exception:
+            continue
+        stack = [c.selectors]
+        seen = 0
+        while stack and seen < 50:
+            x = stack.pop()
+            seen += 1
+            if isinstance(x, re.Pattern):
+                out[name] = x
+                break
+            for a in getattr(x, '__slots__', ()):
+                if a != '_hash':
+                    stack.append(getattr(x, a))
+            if isinstance(x, tuple):
+                stack.extend(x)
     return out
 
 
